@@ -54,8 +54,29 @@ def member_obs(r):
         "errors": sorted({(e.line_count if isinstance(e.line_count, int) else -1) for e in (r.errors or [])}), "error_count": len(r.errors or []),
         "printouts": list(r.printouts or []) if not isinstance(r.printouts, dict) else dict(r.printouts),
         "scan_count": int(c.scan_count), "match_count": int(c.match_count), "stopped": bool(c.stopped), "completed": bool(c.completed),
+        "calls": list(getattr(c, "_verif_calls", [])), "cwnm": bool(c.collect_when_not_matched), "will_run": bool(c.will_run),
+        "scanner": None if c.scanner is None else {"these": list(c.scanner.these), "from": c.scanner.from_line, "to": c.scanner.to_line, "all": bool(c.scanner.all_lines)},
         "run_dir": r.run_dir, "instance_dir": getattr(r, "instance_dir", None), "started": c.run_started_at is not None,
     }
+
+
+def instrument(paths):
+    """record every member's matcher answers (line, vote, stopped, advance, match_count) as runloop.real_run does"""
+    orig = paths.csvpath
+
+    def make():
+        c = orig()
+        calls = []
+        om = c.matches
+
+        def wrapped(line):
+            r = om(line)
+            calls.append((c.line_monitor.physical_line_number, bool(r), bool(c.stopped), int(c.advance_count), int(c.match_count)))
+            return r
+        c.matches = wrapped
+        c._verif_calls = calls
+        return c
+    paths.csvpath = make
 
 
 def do_run(paths, run):
@@ -119,6 +140,8 @@ def run_history(job):
             for run in job["runs"]:
                 if run.get("new_instance"):
                     paths = new()
+                if job.get("record"):
+                    instrument(paths)
                 if "clock" in run and job.get("set_clock"):
                     job["set_clock"](run["clock"])
                 before = snapshot() if job.get("snapshot") else None
